@@ -1,0 +1,316 @@
+// Copyright (c) 2026 10X Genomics, Inc. All rights reserved.
+
+//go:build verif
+
+package syntax
+
+import (
+	"fmt"
+	"sort"
+	"strings"
+)
+
+// Second set of targeted inputs for functions that walk a Go map and
+// accumulate one result per entry (an error list, a flag, a new map), and
+// per-entry views of the same functions for the model differential of the
+// external verification harness (property C10).  This file is only compiled
+// with `-tags verif`.
+
+// VerifC10SiteProvocations returns further provocations by map-range site
+// function name: each builds an input with many entries of which several fail
+// with DIFFERENT texts and returns the text the function produces.
+func VerifC10SiteProvocations() (map[string]func() string, error) {
+	_, _, ast, err := ParseSourceBytes([]byte(verifC10Src), "verif_c10.mro", nil, false)
+	if err != nil {
+		return nil, err
+	}
+	lookup := &ast.TypeTable
+	keys := verifC10Keys(11)
+	call := ast.Callables.Table["P"].(*Pipeline).Calls[0]
+	call2 := &CallStm{Id: "S2", DecId: "S"}
+	result := make(map[string]func() string)
+	// a split map of arrays of different lengths, indexed past the end of
+	// each of them: one error per entry, each naming the entry's length
+	result["invertSplit"] = func() string {
+		done, e, err := invertSplit(verifC10ArraysSplit(keys, call, nil), arrayIndex(7))
+		return fmt.Sprint(done) + " / " + verifErrText(err) + " / " + e.GoString()
+	}
+	// a split disable binding some of whose entries are literals split over
+	// the same call which lack the entry's key
+	result["wrapDisabled"] = func() string {
+		e, err := wrapDisabled(verifC10KindsSplit(keys, call, call2, nil), &IntExp{Value: 1}, lookup)
+		return verifErrText(err) + " / " + e.GoString()
+	}
+	// merging, over keys which the literal does not have, a value which
+	// contains a literal split over the merged call
+	result["MergeExp.BindingPath"] = func() string {
+		other := &MapExp{Kind: KindMap, Value: make(map[string]Exp, len(keys))}
+		for i, k := range keys {
+			other.Value[k+"_x"] = &IntExp{Value: int64(i)}
+		}
+		mg := verifC10Merge(keys, call, other)
+		e, err := mg.BindingPath("", nil, lookup)
+		s := "<nil>"
+		if e != nil {
+			s = e.GoString()
+		}
+		return verifErrText(err) + " / " + s
+	}
+	// inputs whose expression is an array although the parameter is not
+	result["CallGraphStage.unsplit"] = func() string {
+		node := verifC10StageNode(keys, call, lookup, nil)
+		err := node.unsplit(lookup)
+		return verifErrText(err)
+	}
+	result["CallGraphPipeline.unsplit"] = func() string {
+		node := &CallGraphPipeline{CallGraphStage: *verifC10StageNode(keys, call, lookup, nil)}
+		err := node.unsplit(lookup)
+		return verifErrText(err)
+	}
+	return result, nil
+}
+
+// verifC10ArraysSplit is a literal map, split over call, whose value for the
+// i-th key is an array of lens[i] (default i%5) integers.
+func verifC10ArraysSplit(keys []string, call *CallStm, lens []int) *SplitExp {
+	m := &MapExp{Kind: KindMap, Value: make(map[string]Exp, len(keys))}
+	for i, k := range keys {
+		n := i % 5
+		if lens != nil {
+			n = lens[i]
+		}
+		arr := &ArrayExp{Value: make([]Exp, n)}
+		for j := range arr.Value {
+			arr.Value[j] = &IntExp{Value: int64(100*i + j)}
+		}
+		m.Value[k] = arr
+	}
+	return &SplitExp{Value: m, Call: call, Source: m}
+}
+
+// verifC10KindsSplit is a disable binding: a literal map, split over call,
+// whose value for the i-th key depends on kinds[i]%5 (default i%5):
+// 0 a literal split over the same call which lacks the key (an error naming
+// the key), 1 false, 2 a reference, 3 true, 4 a split (over call2) of an
+// integer, which cannot disable a call.
+func verifC10KindsSplit(keys []string, call, call2 *CallStm, kinds []int) *SplitExp {
+	m := &MapExp{Kind: KindMap, Value: make(map[string]Exp, len(keys))}
+	for i, k := range keys {
+		kind := i % 5
+		if kinds != nil {
+			kind = kinds[i]
+		}
+		switch kind % 5 {
+		case 0:
+			other := &MapExp{Kind: KindMap, Value: map[string]Exp{"other": &BoolExp{Value: false}}}
+			m.Value[k] = &SplitExp{Value: other, Call: call, Source: other}
+		case 1:
+			m.Value[k] = &BoolExp{Value: false}
+		case 2:
+			m.Value[k] = &RefExp{Kind: KindCall, Id: "S", OutputId: fmt.Sprint("r", i)}
+		case 3:
+			m.Value[k] = &BoolExp{Value: true}
+		default:
+			src := &ArrayExp{Value: []Exp{&IntExp{Value: 1}}}
+			m.Value[k] = &SplitExp{Value: &IntExp{Value: int64(i)}, Call: call2, Source: src}
+		}
+	}
+	return &SplitExp{Value: m, Call: call, Source: m}
+}
+
+func verifC10Merge(keys []string, call *CallStm, over *MapExp) *MergeExp {
+	inner := &MapExp{Kind: KindMap, Value: make(map[string]Exp, len(keys))}
+	for i, k := range keys {
+		inner.Value[k] = &IntExp{Value: int64(i)}
+	}
+	return &MergeExp{Call: &CallGraphStage{Fqid: "ID.S", call: call}, MergeOver: over,
+		Value: &ArrayExp{Value: []Exp{
+			&SplitExp{Value: inner, Call: call, Source: inner}}}}
+}
+
+// verifC10StageNode is a call graph node whose i-th input is well-formed when
+// ok[i] (default: never) and else an array of one reference bound to a
+// parameter of type int.
+func verifC10StageNode(keys []string, call *CallStm, lookup *TypeLookup, ok []bool) *CallGraphStage {
+	intT := lookup.Get(TypeId{Tname: KindInt})
+	node := &CallGraphStage{
+		Fqid:    "ID.P.S",
+		call:    call,
+		Inputs:  make(ResolvedBindingMap, len(keys)),
+		Outputs: &ResolvedBinding{Exp: &NullExp{}, Type: intT},
+	}
+	for i, k := range keys {
+		ref := &RefExp{Kind: KindCall, Id: "ID.P.U", OutputId: fmt.Sprint("o", i)}
+		if ok != nil && ok[i] {
+			node.Inputs[k] = &ResolvedBinding{Exp: ref, Type: intT}
+		} else {
+			node.Inputs[k] = &ResolvedBinding{
+				Exp:  &ArrayExp{valExp: valExp{Node: AstNode{Loc: SourceLoc{Line: 10 + i}}}, Value: []Exp{ref}},
+				Type: intT}
+		}
+	}
+	return node
+}
+
+// VerifC10Entry is what one entry of the walked map contributes, computed on
+// its own (a map with that single entry): the harness feeds these to the Lean
+// model `accumulate` in several orders and compares the model's result with
+// what the real function returns for the whole map.
+type VerifC10Entry struct {
+	Key     string
+	Done    bool   // the per-entry flag folded with &&
+	Changed bool   // the per-entry flag folded with ||
+	Err     string // error text of this entry, "" if none
+	Val     string // GoString of the entry of the result map
+}
+
+// VerifC10Accumulated is the result of the real function for the whole map.
+type VerifC10Accumulated struct {
+	Done, Changed bool
+	Errs          []string          // the flattened error list, in report order
+	Vals          map[string]string // GoString per key of the result map
+}
+
+func verifC10Errs(err error) []string {
+	if err == nil {
+		return nil
+	}
+	if we, ok := err.(*wrapError); ok {
+		if l, ok := we.innerError.(ErrorList); ok {
+			err = l
+		}
+	}
+	if l, ok := err.(ErrorList); ok {
+		r := make([]string, 0, len(l))
+		for _, e := range l {
+			r = append(r, e.Error())
+		}
+		return r
+	}
+	return []string{err.Error()}
+}
+
+func verifC10Vals(e Exp) map[string]string {
+	if sp, ok := e.(*SplitExp); ok {
+		e = sp.Value
+	}
+	r := make(map[string]string)
+	if m, ok := e.(*MapExp); ok {
+		for k, v := range m.Value {
+			if v == nil {
+				r[k] = "<nil>"
+			} else {
+				r[k] = v.GoString()
+			}
+		}
+	}
+	return r
+}
+
+// VerifC10Differential evaluates one of the accumulating functions (site) on a
+// generated map with the given keys; shape[i] selects what the i-th entry is
+// (the meaning depends on the site), arg is a site-specific parameter.  It
+// returns the per-entry contributions, in the iteration order of the Go map
+// that the real function walks, and the real function's result for the whole.
+func VerifC10Differential(site string, keys []string, shape []int, arg int) (entries []VerifC10Entry, whole VerifC10Accumulated, err error) {
+	defer func() {
+		if r := recover(); r != nil {
+			err = fmt.Errorf("panic: %v", r)
+		}
+	}()
+	_, _, ast, perr := ParseSourceBytes([]byte(verifC10Src), "verif_c10.mro", nil, false)
+	if perr != nil {
+		return nil, whole, perr
+	}
+	lookup := &ast.TypeTable
+	call := ast.Callables.Table["P"].(*Pipeline).Calls[0]
+	call2 := &CallStm{Id: "S2", DecId: "S"}
+	one := func(i int) ([]string, []int) { return keys[i : i+1], shape[i : i+1] }
+	switch site {
+	case "invertSplit":
+		sp := verifC10ArraysSplit(keys, call, shape)
+		// Go's own iteration order over the very map the function walks
+		for k := range sp.Value.(*MapExp).Value {
+			i := sort.SearchStrings(keys, k)
+			ks, sh := one(i)
+			s1 := verifC10ArraysSplit(ks, call, sh)
+			d, e, err := invertSplit(s1, arrayIndex(arg))
+			entries = append(entries, VerifC10Entry{Key: k, Done: d, Changed: e != Exp(s1),
+				Err: strings.Join(verifC10Errs(err), "\n"), Val: verifC10Vals(e)[k]})
+		}
+		d, e, err := invertSplit(sp, arrayIndex(arg))
+		whole = VerifC10Accumulated{Done: d, Changed: e != Exp(sp), Errs: verifC10Errs(err), Vals: verifC10Vals(e)}
+	case "wrapDisabled":
+		sp := verifC10KindsSplit(keys, call, call2, shape)
+		for k := range sp.Value.(*MapExp).Value {
+			i := sort.SearchStrings(keys, k)
+			ks, sh := one(i)
+			s1 := verifC10KindsSplit(ks, call, call2, sh)
+			e, err := wrapDisabled(s1, &IntExp{Value: int64(arg)}, lookup)
+			entries = append(entries, VerifC10Entry{Key: k, Done: true,
+				Err: strings.Join(verifC10Errs(err), "\n"), Val: verifC10Vals(e)[k]})
+		}
+		e, err := wrapDisabled(sp, &IntExp{Value: int64(arg)}, lookup)
+		whole = VerifC10Accumulated{Done: true, Errs: verifC10Errs(err), Vals: verifC10Vals(e)}
+	case "MergeExp.BindingPath":
+		// shape[i] != 0: the key is one the split literal has
+		mk := func(ks []string, sh []int) *MapExp {
+			over := &MapExp{Kind: KindMap, Value: make(map[string]Exp, len(ks))}
+			for i, k := range ks {
+				if sh[i]%2 != 0 {
+					over.Value[k] = &IntExp{Value: 1}
+				} else {
+					over.Value[k+"_x"] = &IntExp{Value: 1}
+				}
+			}
+			return over
+		}
+		over := mk(keys, shape)
+		for k := range over.Value {
+			i := sort.SearchStrings(keys, strings.TrimSuffix(k, "_x"))
+			ks, sh := one(i)
+			e, err := verifC10Merge(keys, call, mk(ks, sh)).BindingPath("", nil, lookup)
+			entries = append(entries, VerifC10Entry{Key: k, Done: true,
+				Err: strings.Join(verifC10Errs(err), "\n"), Val: verifC10Vals(e)[k]})
+		}
+		e, err := verifC10Merge(keys, call, over).BindingPath("", nil, lookup)
+		whole = VerifC10Accumulated{Done: true, Errs: verifC10Errs(err), Vals: verifC10Vals(e)}
+	case "CallGraphStage.unsplit", "CallGraphPipeline.unsplit":
+		oks := func(sh []int) []bool {
+			r := make([]bool, len(sh))
+			for i, s := range sh {
+				r[i] = s%2 != 0
+			}
+			return r
+		}
+		run := func(ks []string, sh []int) (*CallGraphStage, error) {
+			node := verifC10StageNode(ks, call, lookup, oks(sh))
+			if site == "CallGraphPipeline.unsplit" {
+				p := &CallGraphPipeline{CallGraphStage: *node}
+				err := p.unsplit(lookup)
+				return &p.CallGraphStage, err
+			}
+			return node, node.unsplit(lookup)
+		}
+		vals := func(n *CallGraphStage) map[string]string {
+			r := make(map[string]string, len(n.Inputs))
+			for k, b := range n.Inputs {
+				r[k] = b.Exp.GoString()
+			}
+			return r
+		}
+		whole0 := verifC10StageNode(keys, call, lookup, oks(shape))
+		for k := range whole0.Inputs {
+			i := sort.SearchStrings(keys, k)
+			ks, sh := one(i)
+			n, err := run(ks, sh)
+			entries = append(entries, VerifC10Entry{Key: k, Done: true,
+				Err: strings.Join(verifC10Errs(err), "\n"), Val: vals(n)[k]})
+		}
+		n, err := run(keys, shape)
+		whole = VerifC10Accumulated{Done: true, Errs: verifC10Errs(err), Vals: vals(n)}
+	default:
+		return nil, whole, fmt.Errorf("unknown site %s", site)
+	}
+	return entries, whole, nil
+}
